@@ -68,6 +68,7 @@ pub fn build() -> Vec<TypeOps> {
 	// both sides of a fixed, but different, size
 	t!(v; Result<u32, u16>, Result<u16, u64>, Result<i128, bool>, [Result<u64, u16>; 3], Vec<Result<u32, u16>>, (Result<[u16; 3], f32>, u8), Option<Result<u32, u16>>);
 	t!(v, "derived"; ETwins, Vec<ETwins>, [ETwins; 2], Option<ETwins>);
+	t!(v, "derived"; ETwin32, ETwin16, ETwin128, [ETwin32; 2], (ETwin16, u8), Option<ETwin128>);
 
 	// --- sequences of primitives (bulk paths)
 	t!(v, "prim-seq"; Vec<u8>, Vec<u16>, Vec<u32>, Vec<u64>, Vec<u128>, Vec<i8>, Vec<i16>, Vec<i32>, Vec<i64>, Vec<i128>, Vec<f32>, Vec<f64>);
